@@ -95,7 +95,7 @@ def run(rep: Report, repo: Repo):
         'the implementation graphs read statically from techlib.py (263 definitions) and every connected-pin pattern; every unguarded '
         'node_map[...] read must denote a node that received an entry. Pin/node pairing in all (node, pin) tuples is a provenance rule.')
     rep.trusted = ['the static DSL reader and graph builder mirror bench.parse + eliminate_1to1_forks (their steps are checked by C19.ctor / C10.elim)']
-    rep.assumptions = ['NOT DECIDED: that re-wiring by pin position yields the same Boolean function for every implementation shape; composition of transformations']
+    rep.assumptions = ['BOUNDED: function preservation is decided by evaluation (C10.function) for 11 synthetic implementation shapes x every connected-pin pattern x three host styles and for the 71 distinct shapes of the built-in libraries, not for every implementation circuit; compositions beyond substitute-then-eliminate and copy/pickle along the histories of C09.history are not decided']
     cmod = repo.mod('circuit')
     evaluated = hist = False
     try:
